@@ -37,10 +37,7 @@ Obs == /\ flows' = SnapFlows
        /\ HeapOK
        /\ ev.now = now'
        /\ ev.numflows = Cardinality(DOMAIN flows')
-       /\ ev.expiry = (IF queue' = {} THEN (IF ActiveT < InactiveT THEN ActiveT ELSE InactiveT)
-                       ELSE LET ms == { MinT(it) : it \in queue' }
-                                m  == CHOOSE x \in ms : \A y \in ms : x <= y
-                            IN Max2(0, m - now'))
+       /\ ev.expiry = NextExpiryOf(queue', now')
 
 TIngest == /\ IsEvent("Ingest") /\ ~ev.err
            /\ \E latest \in BOOLEAN : Ingest(ev.r, latest)
